@@ -39,6 +39,34 @@ def run(tier, seed):
     collect(PROP, res, rd, ["SweepSafe", "Linearizable", "NotHidden"], viol, cst)
     st["traces"] += cst["traces"]; st["states"] += cst["states"]; st["transitions"] += cst["transitions"]
     st["events"] += cst["events"]
+    # restart part: the newest generation of a key has expired while the store was closed and sits at a LOWER
+    # sector than the older generation a crash left unretired: whatever order the scan meets them in, no older
+    # generation reappears (RealWindow on the real recovery of such images, TraceDisk.tla; crash engine)
+    import os
+    import shutil
+    import crashengine as cre
+    shm = v.shm_dir("c11chunk")
+    try:
+        ct = os.path.join(rd, "expired_newest.ndjson")
+        rc, so, se = v.run_cmd([fxv, "chunkrec", "--dir", shm, "--out", ct, "--keys", "24" if tier == "quick" else "120",
+                                "--cc", "3"], timeout=600)
+    finally:
+        shutil.rmtree(shm, ignore_errors=True)
+    if rc != 0:
+        raise v.ToolError("fxv chunkrec failed: " + se[-400:])
+    r = cre.validate(rd, ct, ["RealOpens", "RealWindow", "RealCount"], timeout=1800)
+    st["states"] += r.distinct
+    st["transitions"] += r.generated
+    st["traces"] += 1
+    if r.violation and r.violation.startswith("invariant"):
+        what, key, idx = cre.classify_violation(r, ct)
+        keep = v.save_replay("c11", "expired_newest.ndjson", open(ct).read())
+        viol.append({"what": "after a restart past the expiry of the newest generation: " + what[:500], "replay": keep,
+                     "key": "expired-newest " + r.violation})
+    elif r.violation:
+        raise v.ToolError("TraceDisk(expired newest): " + r.out[-400:])
+    else:
+        v.tlc_ok(r, "TraceDisk(expired newest)")
     cov = q.coverage_dict(
         st, sum(r.distinct for r in mc), sum(r.generated for r in mc),
         "one trace = one seeded TTL-heavy program (TTL writes, update_ttl/persist, clock ticks across "
@@ -50,4 +78,8 @@ def run(tier, seed):
 
 
 def replay(path):
+    import os
+    if os.path.basename(path).startswith("expired_newest"):
+        import crashengine as cre
+        return cre.replay(PROP, path, ["RealOpens", "RealWindow", "RealCount"])
     return q_replay(path, INV)
